@@ -47,6 +47,11 @@ VARIANTS = [
     V("C12-b14-single-length-check-dropped", "break",
       "            assert len(f_value) == self.output_length(), \"Wrong output_length()! Adjust the output length in your function!\"\n",
       "", "C12.D5"),
+    V("C12-b15-revert-output-length-fix", "break",
+      "        return [np.exp(result), np.exp(result)]\n\n    def output_length(self) -> int:\n        return 2\n",
+      "        return [np.exp(result), np.exp(result)]\n", "C12.D8"),
+    V("C12-b16-single-result-aliases-cache", "break", "            return np.array(f_value)\n", "            return np.asarray(f_value)\n", "C12.D7"),
+    V("C12-b17-vectorised-boundary-side", "break", "        filter = np.all(coordinates < self.border, axis=-1)", "        filter = np.all(coordinates <= self.border, axis=-1)", "C12.D6"),
     # ------------------------------------------------------------------ neutral
     V("C12-n01-rename-coords", "neutral", "coords", "pt_key", file="Function.py", all=True),
     V("C12-n02-guard-spelled-differently", "neutral",
